@@ -19,8 +19,11 @@ extern "C" { fn __errno_location() -> *mut i32; }
 pub unsafe extern "C" fn getentropy(buf: *mut u8, len: usize) -> i32 {
     SCRIPT.with(|s| {
         let mut s = s.borrow_mut();
-        if !s.active { // outside a scripted case: deterministic filler, never the real OS source
-            for i in 0..len { *buf.add(i) = (i as u8).wrapping_mul(37).wrapping_add(11); } return 0;
+        if !s.active { // outside a scripted case: never the real OS source, and - like the real one - never the same answer twice
+            // (every request of the process gets its own bytes; two threads that each draw a pad, a mask or a seed get different ones)
+            static UNSCRIPTED: std::sync::atomic::AtomicU64 = std::sync::atomic::AtomicU64::new(1);
+            let k = UNSCRIPTED.fetch_add(1, std::sync::atomic::Ordering::Relaxed);
+            for i in 0..len { *buf.add(i) = (explore::mix(k, i as u64 / 8) >> (8 * (i % 8))) as u8; } return 0;
         }
         let k = s.requests.len();
         let fail = s.fail_at.map_or(false, |f| match s.fail_n { Some(n) => k >= f && k - f < n, None => if s.once { k == f } else { k >= f } });
